@@ -139,5 +139,5 @@ package filesystem
 //gvc:  requires nn: s != nil
 //gvc:  loop 1 invariant pos: it1 >= 0
 //gvc:  loop 2 invariant pos: it2 >= 0
-//gvc:  ensures relisted: result == nil && !(t.wall == 0 && t.ext == 0) && old(has(s.index, h)) && !has(s.index, h) ==> calls("ObjectPacks") >= 1 && lastres("ObjectPacks") == nil
+//gvc:  ensures relisted: result == nil && !spec_time_zero(t.wall, t.ext) && old(has(s.index, h)) && !has(s.index, h) ==> calls("ObjectPacks") >= 1 && lastres("ObjectPacks") == nil
 //gvc:end
